@@ -9,7 +9,7 @@ Section SizeContract.
   (* inner Next over Z items: decrease, and no Out when the measure is at most F *)
   Definition szZ (nx : St -> ret Z St) (sz : St -> nat) (F : nat) : Prop :=
     forall s o s' ev, nx s = (o, s', ev) ->
-      (match o with Item _ => sz s' < sz s | _ => sz s' <= sz s end)%nat /\
+      (match o with Item _ => sz s' < sz s | Out => True | _ => sz s' <= sz s end)%nat /\
       ((sz s <= F)%nat -> o <> Out).
 
   (* inner Next over list items: the measure pays for the items handed out *)
@@ -17,6 +17,7 @@ Section SizeContract.
     forall s o s' ev, nx s = (o, s', ev) ->
       (match o with
        | Item l => length l + sz s' <= sz s /\ (l = [] -> sz s' < sz s)
+       | Out => True
        | _ => sz s' <= sz s
        end)%nat /\
       ((sz s <= F)%nat -> o <> Out).
@@ -32,7 +33,7 @@ Ltac szsolve :=
          | |- _ <> Out => discriminate
          end; simpl in *; try lia; try congruence; auto;
   try match goal with
-      | H : (_ <= _)%nat -> Out <> Out |- _ => apply H; simpl in *; lia
+      | H : (_ <= _)%nat -> Out <> Out |- _ => exfalso; apply H; [simpl in *; lia|reflexivity]
       end.
 
 Section GenericSize.
@@ -43,7 +44,7 @@ Section GenericSize.
 
   Lemma ipk_next_sz p o p' ev :
     ipk_next nx p = (o, p', ev) ->
-    (match o with Item _ => pksz p' < pksz p | _ => pksz p' <= pksz p end)%nat /\
+    (match o with Item _ => pksz p' < pksz p | Out => True | _ => pksz p' <= pksz p end)%nat /\
     ((sz (pk_in p) <= F)%nat -> o <> Out).
   Proof.
     destruct p as [has curr s]. unfold ipk_next, pksz. simpl. destruct has.
@@ -54,7 +55,7 @@ Section GenericSize.
 
   Lemma ipk_peek_sz p o p' ev :
     ipk_peek nx p = (o, p', ev) ->
-    (pksz p' <= pksz p)%nat /\ (sz (pk_in p') <= sz (pk_in p))%nat /\
+    (o <> Out -> (pksz p' <= pksz p)%nat /\ (sz (pk_in p') <= sz (pk_in p))%nat) /\
     ((sz (pk_in p) <= F)%nat -> o <> Out).
   Proof.
     destruct p as [has curr s]. unfold ipk_peek, pksz. simpl. destruct has.
@@ -66,7 +67,7 @@ Section GenericSize.
 
   Lemma icompact_sz n r : forall first prev s o first' prev' s' ev,
     icompact nx n r first prev s = (o, (first', prev', s'), ev) ->
-    (match o with Item _ => sz s' < sz s | _ => sz s' <= sz s end)%nat /\
+    (match o with Item _ => sz s' < sz s | Out => True | _ => sz s' <= sz s end)%nat /\
     ((sz s < n)%nat -> (sz s <= F)%nat -> o <> Out).
   Proof.
     induction n as [|n IH]; intros first prev s o first' prev' s' ev Hc; simpl in Hc.
@@ -82,7 +83,7 @@ Section GenericSize.
 
   Lemma ifilter_sz n keep : forall s o s' ev,
     ifilter nx n keep s = (o, s', ev) ->
-    (match o with Item _ => sz s' < sz s | _ => sz s' <= sz s end)%nat /\
+    (match o with Item _ => sz s' < sz s | Out => True | _ => sz s' <= sz s end)%nat /\
     ((sz s < n)%nat -> (sz s <= F)%nat -> o <> Out).
   Proof.
     induction n as [|n IH]; intros s o s' ev Hc; simpl in Hc.
@@ -97,7 +98,7 @@ Section GenericSize.
 
   Lemma ifirst_sz x s o x' s' ev :
     ifirst nx x s = (o, (x', s'), ev) ->
-    (match o with Item _ => sz s' < sz s | _ => sz s' <= sz s end)%nat /\
+    (match o with Item _ => sz s' < sz s | Out => True | _ => sz s' <= sz s end)%nat /\
     ((sz s <= F)%nat -> o <> Out).
   Proof.
     unfold ifirst. destruct (x <=? 0).
@@ -108,7 +109,7 @@ Section GenericSize.
 
   Lemma imap_sz f s o s' ev :
     imap nx f s = (o, s', ev) ->
-    (match o with Item _ => sz s' < sz s | _ => sz s' <= sz s end)%nat /\
+    (match o with Item _ => sz s' < sz s | Out => True | _ => sz s' <= sz s end)%nat /\
     ((sz s <= F)%nat -> o <> Out).
   Proof.
     unfold imap. destruct (nx s) as [[o1 s1] ev1] eqn:E. destruct (Hsz _ _ _ _ E) as [Hd Hno].
@@ -117,7 +118,7 @@ Section GenericSize.
 
   Lemma iwhile_sz f done s o done' s' ev :
     iwhile nx f done s = (o, (done', s'), ev) ->
-    (match o with Item _ => sz s' < sz s | _ => sz s' <= sz s end)%nat /\
+    (match o with Item _ => sz s' < sz s | Out => True | _ => sz s' <= sz s end)%nat /\
     ((sz s <= F)%nat -> o <> Out).
   Proof.
     unfold iwhile. destruct done.
@@ -134,7 +135,7 @@ Section GenericSize.
   Lemma iflatten_sz n : forall rest curr o rest' curr' ev,
     iflatten nx n rest curr = (o, (rest', curr'), ev) ->
     (match o with Item _ => flsz rest' curr' < flsz rest curr
-             | _ => flsz rest' curr' <= flsz rest curr end)%nat /\
+             | Out => True | _ => flsz rest' curr' <= flsz rest curr end)%nat /\
     ((flsz rest curr < n)%nat -> (flsz rest curr <= S F)%nat -> o <> Out).
   Proof.
     induction n as [|n IH]; intros rest curr o rest' curr' ev Hc; simpl in Hc.
@@ -157,7 +158,7 @@ Section GenericSize.
 
   Lemma ijoin_sz n : forall its o its' ev,
     ijoin nx n its = (o, its', ev) ->
-    (match o with Item _ => jsz its' < jsz its | _ => jsz its' <= jsz its end)%nat /\
+    (match o with Item _ => jsz its' < jsz its | Out => True | _ => jsz its' <= jsz its end)%nat /\
     ((jsz its < n)%nat -> (jsz its <= S F)%nat -> o <> Out).
   Proof.
     induction n as [|n IH]; intros its o its' ev Hc; simpl in Hc.
@@ -181,6 +182,7 @@ Section GenericSize2.
     ichunk_loop nx n size chunk s = (o, s', ev) ->
     (match o with
      | Item l => length l + 2 * sz s' <= length chunk + 2 * sz s /\ l <> []
+     | Out => True
      | _ => sz s' <= sz s
      end)%nat /\
     ((sz s < n)%nat -> (sz s <= F)%nat -> o <> Out).
@@ -188,7 +190,7 @@ Section GenericSize2.
     induction n as [|n IH]; intros chunk s o s' ev Hc; simpl in Hc.
     - inv_ret Hc. szsolve.
     - destruct (nx s) as [[o1 s1] ev1] eqn:E. destruct (Hsz _ _ _ _ E) as [Hd Hno].
-      destruct o1 as [x| | | |]; try (inv_ret Hc; szsolve; fail).
+      destruct o1 as [x| | | |].
       + destruct (zlen (chunk ++ [x]) =? size).
         * inv_ret Hc. split; [|szsolve]. rewrite app_length. simpl. split; [lia|].
           intros Hx. apply app_eq_nil in Hx. destruct Hx; discriminate.
@@ -200,12 +202,16 @@ Section GenericSize2.
           -- intros H1 H2. apply Hno2; lia.
       + destruct (0 <? zlen chunk) eqn:Ez; inv_ret Hc; [|szsolve].
         split; [|szsolve]. split; [lia|]. intros Hx; subst chunk. discriminate Ez.
+      + inv_ret Hc. szsolve.
+      + inv_ret Hc. szsolve.
+      + inv_ret Hc. szsolve.
   Qed.
 
   Lemma ichunk_sz n size s o s' ev :
     ichunk nx n size s = (o, s', ev) ->
     (match o with
      | Item l => length l + 2 * sz s' <= 2 * sz s /\ (l = [] -> 2 * sz s' < 2 * sz s)
+     | Out => True
      | _ => 2 * sz s' <= 2 * sz s
      end)%nat /\
     ((sz s < n)%nat -> (sz s <= F)%nat -> o <> Out).
@@ -216,153 +222,4 @@ Section GenericSize2.
       split; [|exact Hno]. destruct o; try lia. destruct Hd as [Hd Hne]. simpl in Hd.
       split; [lia|]. intros Hx; destruct (Hne Hx).
   Qed.
-
-  (* Runs (iterator) *)
-  Variable r : rel.
-  Definition rsz (cur : runcur) (p : pk St) : nat :=
-    runs_w r cur (pk_has p) (pk_curr p) + 3 * sz (pk_in p).
-
-  Lemma ipk_peek_item p x p' ev :
-    ipk_peek nx p = (Item x, p', ev) -> pk_has p' = true /\ pk_curr p' = x.
-  Proof.
-    destruct p as [has curr s]. unfold ipk_peek. simpl. destruct has.
-    - intros Hc. inv_ret Hc. auto.
-    - destruct (nx s) as [[o1 s1] ev1]. destruct o1; intros Hc; inv_ret Hc. auto.
-  Qed.
-
-  Lemma runs_w_le2 cur has curr : (runs_w r cur has curr <= 2)%nat.
-  Proof.
-    unfold runs_w. destruct has; [|lia]. destruct cur as [[prev [|]]|]; try lia.
-    destruct (rel_eval r prev curr); lia.
-  Qed.
-
-  Lemma ipk_peek_rsz cur p o p' ev :
-    ipk_peek nx p = (o, p', ev) ->
-    (rsz cur p' <= rsz cur p)%nat /\ (sz (pk_in p') <= sz (pk_in p))%nat /\
-    ((sz (pk_in p) <= F)%nat -> o <> Out).
-  Proof.
-    destruct p as [has curr s]. unfold ipk_peek, rsz. simpl. destruct has.
-    - intros Hc. inv_ret Hc. simpl. szsolve.
-    - destruct (nx s) as [[o1 s1] ev1] eqn:E. destruct (Hsz _ _ _ _ E) as [Hd Hno].
-      intros Hc. destruct o1 as [x| | | |]; inv_ret Hc; simpl; try (szsolve; fail).
-      pose proof (runs_w_le2 cur true x). szsolve.
-  Qed.
-
-  Lemma iruns_inner_sz cur p o cur' p' ev :
-    iruns_inner nx r cur p = (o, (cur', p'), ev) ->
-    (match o with
-     | Item _ => rsz (Some cur') p' < rsz (Some cur) p
-     | End => rsz (Some cur') p' <= rsz (Some cur) p /\ snd cur' = false
-     | _ => rsz (Some cur') p' <= rsz (Some cur) p
-     end)%nat /\ (sz (pk_in p') <= sz (pk_in p))%nat /\
-    ((sz (pk_in p) <= F)%nat -> o <> Out).
-  Proof.
-    destruct cur as [prev alive]. unfold iruns_inner. destruct alive; simpl.
-    - destruct (ipk_peek nx p) as [[o1 p1] ev1] eqn:E1.
-      destruct (ipk_peek_rsz (Some (prev, true)) _ _ _ _ E1) as (Hd1 & Hs1 & Hno1).
-      destruct o1 as [x| | | |].
-      + destruct (ipk_peek_item _ _ _ _ E1) as [Hh Hcu].
-        destruct (rel_eval r prev x) eqn:Es.
-        * destruct p1 as [has1 curr1 s1]. simpl in *. subst has1 curr1.
-          unfold ipk_next. simpl. intros Hc. inv_ret Hc.
-          unfold rsz in *. simpl in *. rewrite Es in Hd1. szsolve.
-        * intros Hc. inv_ret Hc. unfold rsz in *.
-          destruct p' as [has1 curr1 s1]. simpl in *. subst has1 curr1.
-          simpl in *. rewrite Es in Hd1. szsolve.
-      + intros Hc. inv_ret Hc. simpl. unfold rsz in *.
-        destruct p' as [has1 curr1 s1]. simpl in *.
-        assert (Hh : has1 = false).
-        { destruct p as [has curr s]. unfold ipk_peek in E1. simpl in E1. destruct has.
-          - discriminate.
-          - destruct (nx s) as [[o2 s2] ev2]. destruct o2; inv_ret E1; reflexivity. }
-        subst has1. simpl in *. szsolve.
-      + intros Hc. inv_ret Hc. simpl. szsolve.
-      + intros Hc. inv_ret Hc. simpl. szsolve.
-      + intros Hc. inv_ret Hc. simpl. szsolve.
-    - intros Hc. inv_ret Hc. szsolve.
-  Qed.
-
-  Lemma iruns_drain_sz n : forall cur p o cur' p' ev,
-    iruns_drain nx n r cur p = (o, (cur', p'), ev) ->
-    (rsz (Some cur') p' <= rsz (Some cur) p)%nat /\ (sz (pk_in p') <= sz (pk_in p))%nat /\
-    (o = End -> snd cur' = false) /\
-    ((rsz (Some cur) p < n)%nat -> (sz (pk_in p) <= F)%nat -> o <> Out).
-  Proof.
-    induction n as [|n IH]; intros cur p o cur' p' ev Hc; simpl in Hc.
-    - inv_ret Hc. szsolve.
-    - destruct (iruns_inner nx r cur p) as [[o1 [cur1 p1]] ev1] eqn:E1.
-      destruct (iruns_inner_sz _ _ _ _ _ _ E1) as (Hd1 & Hs1 & Hno1).
-      destruct o1 as [x| | | |]; try (inv_ret Hc; szsolve; fail).
-      + destruct (iruns_drain nx n r cur1 p1) as [[o2 [cur2 p2]] ev2] eqn:E2.
-        simpl in Hc. inv_ret Hc. destruct (IH _ _ _ _ _ _ E2) as (Hd2 & Hs2 & He2 & Hno2).
-        split; [lia|]. split; [lia|]. split; [exact He2|].
-        intros H1 H2. apply Hno2; lia.
-      + inv_ret Hc. destruct Hd1 as [Hd1 Ha]. szsolve.
-  Qed.
-
-  Lemma iruns_take_sz n : forall k acc cur p o cur' p' ev,
-    iruns_take nx n r k acc cur p = (o, (cur', p'), ev) ->
-    (match o with
-     | Item l => length l + rsz (Some cur') p' <= length acc + rsz (Some cur) p
-     | _ => rsz (Some cur') p' <= rsz (Some cur) p
-     end)%nat /\ (sz (pk_in p') <= sz (pk_in p))%nat /\
-    ((rsz (Some cur) p < n)%nat -> (sz (pk_in p) <= F)%nat -> o <> Out).
-  Proof.
-    induction n as [|n IH]; intros k acc cur p o cur' p' ev Hc; simpl in Hc.
-    - inv_ret Hc. szsolve.
-    - assert (Hgo :
-        (let '(o, (cur', p'), ev) := iruns_inner nx r cur p in
-         match o with
-         | Item x => after ev (iruns_take nx n r (option_map Nat.pred k) (acc ++ [x]) cur' p')
-         | End => (Item acc, (cur', p'), ev)
-         | _ => (pass o, (cur', p'), ev)
-         end) = (o, (cur', p'), ev) ->
-        (match o with
-         | Item l => length l + rsz (Some cur') p' <= length acc + rsz (Some cur) p
-         | _ => rsz (Some cur') p' <= rsz (Some cur) p
-         end)%nat /\ (sz (pk_in p') <= sz (pk_in p))%nat /\
-        ((rsz (Some cur) p < S n)%nat -> (sz (pk_in p) <= F)%nat -> o <> Out)).
-      { intros Hc'.
-        destruct (iruns_inner nx r cur p) as [[o1 [cur1 p1]] ev1] eqn:E1.
-        destruct (iruns_inner_sz _ _ _ _ _ _ E1) as (Hd1 & Hs1 & Hno1).
-        destruct o1 as [x| | | |]; try (inv_ret Hc'; szsolve; fail).
-        - destruct (iruns_take nx n r (option_map Nat.pred k) (acc ++ [x]) cur1 p1)
-            as [[o2 [cur2 p2]] ev2] eqn:E2.
-          simpl in Hc'. inv_ret Hc'. destruct (IH _ _ _ _ _ _ _ _ E2) as (Hd2 & Hs2 & Hno2).
-          split; [|split; [lia|intros H1 H2; apply Hno2; lia]].
-          destruct o; try lia. rewrite app_length in Hd2. simpl in Hd2. lia.
-        - inv_ret Hc'. destruct Hd1 as [Hd1 _]. szsolve. }
-      destruct k as [[|k]|]; [inv_ret Hc; szsolve|exact (Hgo Hc)|exact (Hgo Hc)].
-  Qed.
-
-  Lemma iruns_sz n k cur p o cur' p' ev :
-    iruns nx n r k cur p = (o, (cur', p'), ev) ->
-    (match o with
-     | Item l => length l + rsz cur' p' < rsz cur p
-     | _ => rsz cur' p' <= rsz cur p
-     end)%nat /\
-    ((rsz cur p < n)%nat -> (sz (pk_in p) <= F)%nat -> o <> Out).
-  Proof.
-    unfold iruns.
-    assert (Hdr : exists o1 p1 ev1,
-               match cur with
-               | Some c => let '(o, (_, p'), ev) := iruns_drain nx n r c p in (o, p', ev)
-               | None => (End, p, [])
-               end = (o1 : res unit, p1, ev1) /\
-               (rsz None p1 <= rsz cur p)%nat /\ (sz (pk_in p1) <= sz (pk_in p))%nat /\
-               (o1 <> End -> rsz cur p1 <= rsz cur p)%nat /\
-               ((rsz cur p < n)%nat -> (sz (pk_in p) <= F)%nat -> o1 <> Out)).
-    { destruct cur as [c|].
-      - destruct (iruns_drain nx n r c p) as [[o1 [c1 p1]] ev1] eqn:E1.
-        destruct (iruns_drain_sz _ _ _ _ _ _ _ E1) as (Hd1 & Hs1 & He1 & Hno1).
-        exists o1, p1, ev1. split; [reflexivity|].
-        assert (Hw : (rsz None p1 <= rsz (Some c) p)%nat).
-        { unfold rsz in *. pose proof (runs_w_le2 (Some c1) (pk_has p1) (pk_curr p1)).
-          destruct c1 as [pr1 al1]. unfold runs_w in *.
-          destruct (pk_has p1); [|lia]. destruct al1; [|lia].
-          admit. }
-        admit.
-      - exists End, p, []. split; [reflexivity|]. szsolve. }
-    admit.
-  Admitted.
 End GenericSize2.
